@@ -53,6 +53,14 @@ int main(int argc, char **argv) {
             report("PGMIndex", run_threads(nthreads, queries, [&](uint64_t q) { auto r = idx.search(q); return r.pos * 31 + r.lo * 7 + r.hi; }, seq));
         }
         {
+            pgm::PGMIndex<uint64_t, 16, 0> idx(data);      // one-level variant (binary search over the segments)
+            report("OneLevelPGMIndex", run_threads(nthreads, queries, [&](uint64_t q) { auto r = idx.search(q); return r.pos * 31 + r.lo * 7 + r.hi; }, seq));
+        }
+        {
+            pgm::PGMIndex<uint64_t, 4, 64> idx(data);      // binary-search routing
+            report("PGMIndexBinaryRouting", run_threads(nthreads, queries, [&](uint64_t q) { auto r = idx.search(q); return r.pos * 31 + r.lo * 7 + r.hi; }, seq));
+        }
+        {
             pgm::CompressedPGMIndex<uint64_t, 16, 4> idx(data);
             report("CompressedPGMIndex", run_threads(nthreads, queries, [&](uint64_t q) { auto r = idx.search(q); return r.pos * 31 + r.lo * 7 + r.hi; }, seq));
         }
